@@ -267,10 +267,10 @@ func (h FHDR) MarshalBinary() ([]byte, error) {
 		}
 		opts = append(opts, b...)
 	}
-	h.FCtrl.fOptsLen = uint8(len(opts))
-	if h.FCtrl.fOptsLen > 15 {
+	if len(opts) > 15 {
 		return []byte{}, errors.New("lorawan: max number of FOpts bytes is 15")
 	}
+	h.FCtrl.fOptsLen = uint8(len(opts))
 
 	out := make([]byte, 0, 7+h.FCtrl.fOptsLen)
 	b, err = h.DevAddr.MarshalBinary()
